@@ -39,6 +39,10 @@ C06_FifoStep(api, apiN, pass) ==
                 /\ Queued(pass.view[k]) /\ pass.view[k].pol = "Enqueue"
                 /\ pass.view[k].sa <= pass.t0
                 /\ Queued(apiN[k]) /\ ~apiN[k].adm
+\* a Forbid Job is never started at the limit (it is refused instead): C05's condition, stated for the Forbid policy
+C06_ForbidNotStartedAtLimitStep(api, apiN, maxc) ==
+    \A j \in DOMAIN api :
+        (StartsNow(api, apiN, j) /\ api[j].pol = "Forbid" /\ api[j].jc # 0) => TrueActive(api, api[j].jc) < maxc[api[j].jc]
 C06_EnqueueNeverRefused(api) == \A j \in DOMAIN api : (api[j].ex /\ api[j].pol = "Enqueue") => ~api[j].adm
 C06_AllowNeverRefused(api)   == \A j \in DOMAIN api : (api[j].ex /\ api[j].pol = "Allow") => ~api[j].adm
 \* a refusal quotes the active count it was based on: it must have been at the limit
